@@ -43,6 +43,8 @@ inductive SAct where
   | set (name delay : Nat)
   | once (name delay : Nat)
   | cancel (name : Nat)
+  | clock (tip : Nat)     -- send_local carrying the clock reading (simulator scripts only)
+  | rand (tip : Nat)      -- send_local carrying `ctx.rand()` (simulator scripts only)
 deriving DecidableEq, Repr, Inhabited
 
 structure SRule where
@@ -79,6 +81,9 @@ def SAct.toAction (dat : List Nat) : SAct → Action
   | .set n dl => .set n dl false
   | .once n dl => .set n dl true
   | .cancel n => .cancel n
+  -- clock and random reads are not part of the clock-free MC program model
+  | .clock tip => .loc ⟨tip, []⟩
+  | .rand tip => .loc ⟨tip, []⟩
 
 def Script.handle (sc : Script) (s : PState) (i : Input) : PState × List Action :=
   let hist := if sc.record then s.hist ++ [i.trig] else s.hist
